@@ -198,6 +198,15 @@ def main(argv):
     res = C.pool_map(shard, jobs)
     n = sum(r[0] for r in res)
     bad = [(oid, d) for r in res for p, oid, d in r[1]]
+    # NumPy backend, for every value: the reducers executed on object-dtype arrays of opaque tokens (vv/npsym.py)
+    from .. import npsym, objsym
+    shapes = ((3,), (2, 2), (2, 3)) if C.tier() == "quick" else ((3,), (2, 2), (2, 3), (2, 1, 2))
+    sres = C.pool_map(npsym.shard, [(s_, m_, shapes, ("reduce",)) for s_ in objsym.systems() for m_ in (False, True)])
+    n_sym = sum(r[0] for r in sres)
+    sym_bad = [(oid, d) for r in sres for p, oid, d in r[1]]
+    sym_skipped = sum(r[2] for r in sres)
+    bad += sym_bad
+    n += n_sym
     groups = {}
     for oid, detail in bad:
         groups.setdefault(oid.split("[")[0], []).append((oid, detail))
@@ -214,6 +223,10 @@ def main(argv):
     bound = "NumPy shapes (3,), (2,2), (2,3) x axis in {None, 0, 1, -1} x keepdims x {numpy.sum, .sum()}; Awkward: jagged with an empty and a missing list, flat; 20 systems x 2 flavors"
     coverage = dict(evaluations=n, distinct_nontrivial=len(jobs) * 10, rule="one evaluation = one reduction contract (Cartesian sums / shape / flavor / operand unchanged / counts) at one lattice point",
                     failed=len(bad), known_findings=nk, bound=bound, exhaustive=False,
+                    symbolic_numpy=dict(obligations=n_sym, failed=len(sym_bad), not_evaluable=sym_skipped, shapes=[list(x) for x in shapes],
+                                        label="numpy.sum / .sum() of the real NumPy backend executed on object-dtype arrays of opaque tokens: every Cartesian component of the result is "
+                                              "term-identical to NumPy's own sum of the elements' Cartesian components as the object backend computes them (all values; shapes, axes and "
+                                              "keepdims enumerated); full reductions to a 0-d result are not evaluable on tokens and stay bounded"),
                     samples=[dict(call="numpy.sum(axis=0,keepdims=True)[rhophi,eta,tau|mom|np(2,3)]", contract="x,y,z,t of the result == column sums of the elements' x,y,z,t; shape (1,3)")],
                     explanation=f"BOUNDED run-time contracts on the reducers of the NumPy and Awkward backends (numpy.sum / ak.sum / count functions trusted): {n} evaluations over [{bound}]; {len(bad)} failed.")
     C.write_evidence("C17", "other", coverage, ["numpy.sum, ak.sum, ak.count, ak.count_nonzero are trusted library functions", "bounded: only the enumerated shapes, axes and layouts",
@@ -226,7 +239,12 @@ def replay(prop, rp, path):
     import re
     oid = rp["first"]["obligation"]
     m = re.search(r"\[([a-z,]+)\|(mom|gen)", oid)
-    n, bad = shard((tuple(m.group(1).split(",")), m.group(2) == "mom", rp.get("seed", 0)))
+    if "/symbolic-numpy/" in oid:
+        from .. import npsym
+        r = C.pool_map(npsym.shard, [(tuple(m.group(1).split(",")), m.group(2) == "mom", ((3,), (2, 2), (2, 3), (2, 1, 2)), ("reduce",))] * 2)[0]
+        bad = r[1]
+    else:
+        n, bad = shard((tuple(m.group(1).split(",")), m.group(2) == "mom", rp.get("seed", 0)))[:2]
     hit = [b for b in bad if b[1] == oid]
     for b in hit[:2]:
         print("still failing:", b)
